@@ -414,12 +414,16 @@ def main():
         size_menus = [(big,) * 4, (mid, big, small, big), (small,) * 4, (big, mid, big, mid)]
         if t == 'thorough':
             size_menus += [(big,) * 6, (mid,) * 6, (big, small, big, small, big, small)]
+        else:
+            size_menus += [(big,) * 7]   # long enough for forgiven waiting time to add up (kept for k=3, zero latency only)
         for k in (1, 2, 3):
             for sizes in size_menus:
                 for lat in ('zero', 'half', 'exact', 'double'):
                     for direction in ('read', 'write'):
                         for oversleep in (1.0, 1.1):
                             if t == 'quick' and (oversleep != 1.0 and (lat != 'zero' or direction == 'write')):
+                                continue
+                            if t == 'quick' and len(sizes) == 7 and (k != 3 or lat != 'zero' or oversleep != 1.0):
                                 continue
                             bound = (1 if k > 1 else 0) if t == 'quick' else (2 if k > 1 else 0)
                             plans.append(({'L': L, 'k': k, 'sizes': sizes, 'lat': lat, 'dir': direction, 'oversleep': oversleep}, bound))
